@@ -4,9 +4,9 @@ from tools import synth, common, gen_versions, battle, recordings, digest
 LEVEL = 'proof'
 
 
-def fresh_digests(paths, strict, hashseed='0'):
+def fresh_digests(paths, strict, hashseed='0', extra_env=None):
     """each file in its own fresh interpreter"""
-    env = dict(os.environ, PYTHONPATH=common.REPO + os.pathsep + common.VERIF, PYTHONHASHSEED=hashseed)
+    env = dict(os.environ, PYTHONPATH=common.REPO + os.pathsep + common.VERIF, PYTHONHASHSEED=hashseed, **(extra_env or {}))
     procs = []
     out = {}
     for i in range(0, len(paths), 1):
@@ -54,6 +54,9 @@ def run(ctx):
                 if x not in picks: picks.append(x)
         for v in picks:
             p = os.path.join(tmp, 'w-%s.wowsreplay' % v); battle.write_wows(p, v, random.Random(rng.randrange(10 ** 9)), join=(rng.random() < 0.5)); pool.append(p)
+        # battles whose summary depends on NESTED updates (a crew record changed in place after creation)
+        for v in [x for x in (wv[-1], '13_2_0', '12_6_0', '0_11_6') if x in wv][:3]:
+            p = os.path.join(tmp, 'w-%s-twins.wowsreplay' % v); battle.write_wows(p, v, random.Random(rng.randrange(10 ** 9)), twins=True); pool.append(p)
         for v in sib:
             base3 = '_'.join(v.split('_')[:3])
             b, vs = battle.build_wows(base3, random.Random(rng.randrange(10 ** 9)), join=False)
@@ -93,6 +96,30 @@ def run(ctx):
             if other[f] != fresh[False][f]:
                 ctx.violation(dict(kind='result-depends-on-hash-seed', file=os.path.basename(f), digest_seed_0=fresh[False][f], digest_seed_20261001=other[f],
                                    how='PYTHONHASHSEED=0 python -m tools.digest lenient <file>  vs  PYTHONHASHSEED=20261001 python -m tools.digest lenient <file>')); break
+        # ... and whatever its optimisation switch: the well-formed battles (strict = lenient, nothing failed) under PYTHONOPTIMIZE=1 (assert statements
+        # compiled away - a parse must not DO its work inside one)
+        wellformed = [f for f in pool if fresh[True][f] == fresh[False][f] and os.path.basename(f).startswith(('w-', 'wot-', 'wowp-'))]
+        wellformed = [f for f in wellformed if 'twins' in f] + [f for f in wellformed if 'twins' not in f][:8]
+        opt = fresh_digests(wellformed, False, extra_env={'PYTHONOPTIMIZE': '1'})
+        for f in wellformed:
+            ctx.case(('optimize', os.path.basename(f))); ctx.count('call:under-PYTHONOPTIMIZE')
+            if opt[f] != fresh[False][f]:
+                ctx.violation(dict(kind='result-depends-on-interpreter-optimisation', file=os.path.basename(f), digest_default=fresh[False][f], digest_optimize=opt[f],
+                                   how='python -m tools.digest lenient <file>  vs  PYTHONOPTIMIZE=1 python -m tools.digest lenient <file> (a synthetic battle in which no packet fails)')); break
+        # two players of one version alive at the same time, the OLDER one dropped before the newer one plays: the newer one's result is the fresh one
+        import gc
+        from replay_unpack.clients import wows as wows_
+        for v in [x for x in ('13_2_0', '12_6_0', '0_11_6', '0_10_0') if x in battle.wows_versions()][:3]:
+            bb, _vs = battle.build_wows(v, random.Random(13)); stream = bb.stream()
+            try:
+                p0 = wows_.ReplayPlayer(v.split('_')); p0.play(stream, True); ref = digest.canon(p0.get_info()); del p0; gc.collect()
+                p1 = wows_.ReplayPlayer(v.split('_')); p2 = wows_.ReplayPlayer(v.split('_')); del p1; gc.collect()
+                p2.play(stream, True); got = digest.canon(p2.get_info()); del p2; gc.collect()
+            except Exception as e: got = 'raises %s' % type(e).__name__; ref = locals().get('ref')
+            ctx.case(('overlapping-players', v)); ctx.count('call:overlapping-players')
+            if got != ref:
+                ctx.violation(dict(kind='history-dependent-result', version=v, problem='a player whose elder twin (same version, constructed before it, never played) was dropped before it played returns a different summary',
+                                   how='synthetic battle for that version; p1 = ReplayPlayer(v); p2 = ReplayPlayer(v); del p1; gc.collect(); p2.play(stream, True); p2.get_info() vs the same with one player')); break
         # the same PARSER OBJECT asked twice: the second answer is the first one (nothing is replayed into state the first call left behind)
         from replay_parser import ReplayParser as RP1
         for f in [x for x in pool if os.path.basename(x).startswith(('w-', 'wot-', 'wowp-'))][:4] + pool[-4:-2]:
